@@ -188,7 +188,19 @@ func (s *search) futures(pw []int64, hist []opT, swapped bool) []key {
 			if !ok {
 				return
 			}
-			out[i], _ = symCanon(in.observeAll(false))
+			// the future's observation includes Hash(): a cache that only a later
+			// Hash() shows (e.g. a memoised hash that an operation forgets to reset)
+			// separates two histories here
+			obs := in.observeAll(true)
+			k, sw := symCanon(obs)
+			h0, h1 := obs[0].Hash, obs[1].Hash
+			if sw {
+				h0, h1 = h1, h0
+			}
+			hh := sha256.New()
+			hh.Write(k[:])
+			hh.Write([]byte(h0 + "|" + h1))
+			copy(out[i][:], hh.Sum(nil)[:len(out[i])])
 		})
 		atomic.AddInt64(&s.futBuilds, 1)
 		if panicked {
